@@ -79,6 +79,10 @@ func c20GenFile(g *rng.R, rel, kind string) *c20File {
 		d := adoc.Generate(g, o)
 		for _, n := range d.All {
 			n.Local = strings.ReplaceAll(n.Local, "#", "h")
+			// XML vocabularies reuse HTML's element names (RSS <link>, XHTML <meta>, <br>): they are ordinary elements here
+			if n.Kind == adoc.Elem && n.Space == "" && g.P(6) {
+				n.Local = rng.Pick(g, []string{"link", "meta", "br", "hr", "img", "input", "base", "col", "param", "area", "p", "li", "td", "script", "title"})
+			}
 		}
 		d.NormalizeNS(g)
 		d.Finish()
